@@ -113,13 +113,13 @@ OPTS = {"quick": {"max_paths": 200, "budget_s": 900, "jobs": 4, "branch_timeout_
 META = {
     "level": "other",
     "explanation": "The real nifty.re.optimize_kl (3 iterations, 2 mirrored samples, MGVI quick / geoVI thorough, jit off) is killed at every "
-                   "file-system mutation it performs (before the operation and after a create/truncate; the crash point is a symbolic "
+                   "file-system mutation it performs (before the operation, after a create/truncate, right after a remove / replace; buffered data of open files is lost; the crash point is a symbolic "
                    "integer concretised by solver-decided forking), restarted with resume=True and compared with the uninterrupted run: "
                    "bit-identical position and residuals, same iteration counter and PRNG key.  Concrete float64 runs: the solver "
                    "explores the crash-point space.",
     "functions_encoded": ["nifty.re.optimize_kl.optimize_kl (state pickling and resume)", "nifty.re.optimize_kl.OptimizeVI.{init_state,update}"],
-    "bounds": {"iterations": 3, "samples": "2 keys (4 mirrored samples)", "crash points": "every open-for-write / remove / replace below odir; one crash per history"},
-    "stubs": ["kill = BaseException raised at the crash point (finally blocks and context managers run, a real kill would not run them)"],
+    "bounds": {"iterations": 3, "samples": "2 keys (4 mirrored samples)", "crash points": "before every open-for-write / remove / replace below odir, after every create/truncate, after every remove / replace; one crash per history"},
+    "stubs": ["kill = BaseException raised at the crash point; files opened for writing below odir are wrapped so that data reaches the disk only at flush()/close() and is discarded once the run is killed (the unwinding exception runs `with` blocks, a real kill would not flush)"],
     "outside": ["partial writes inside one write() call", "two crashes in one history", "jit=True (same persistence code)", "multi-device runs"],
     "assumptions": [],
 }
